@@ -19,6 +19,8 @@ pub enum EndMode { Eof, Pend, Err }
 pub struct Shared {
     pub input: VecDeque<u8>,
     pub end: EndMode,
+    /// transport errors carry kind ConnectionAborted (like ECONNABORTED) instead of a kind the library never produces
+    pub abort_kind: bool,
     pub rd: VecDeque<Rd>,
     pub wr: VecDeque<Wr>,
     pub fl: VecDeque<Fl>,
@@ -36,8 +38,9 @@ pub struct Shared {
 impl Shared {
     pub fn new(input: &[u8], end: EndMode, rd: Vec<Rd>, wr: Vec<Wr>, fl: Vec<Fl>) -> Arc<Mutex<Shared>> {
         Arc::new(Mutex::new(Shared { input: input.iter().copied().collect(), end, rd: rd.into(), wr: wr.into(), fl: fl.into(), wlog: vec![], events: vec![],
-            auto_wake: false, read_waker: None, waiting_for_input: false, reads: 0, writes: 0, hold: false }))
+            auto_wake: false, read_waker: None, waiting_for_input: false, reads: 0, writes: 0, hold: false, abort_kind: false }))
     }
+    pub fn terr(&self, k: io::ErrorKind) -> io::Error { if self.abort_kind { io::ErrorKind::ConnectionAborted.into() } else { k.into() } }
 }
 pub struct MockR(pub Arc<Mutex<Shared>>);
 pub struct MockW(pub Arc<Mutex<Shared>>);
@@ -50,13 +53,13 @@ impl AsyncRead for MockR {
         if cap == 0 { s.events.push("R0:0".into()); return Poll::Ready(Ok(0)); }
         let a = s.rd.pop_front().unwrap_or(Rd::All);
         if a == Rd::Pending { s.events.push(format!("R{cap}:P")); if s.auto_wake { cx.waker().wake_by_ref(); } return Poll::Pending; }
-        if a == Rd::Err { s.events.push(format!("R{cap}:E")); return Poll::Ready(Err(io::ErrorKind::TimedOut.into())); }
+        if a == Rd::Err { s.events.push(format!("R{cap}:E")); return Poll::Ready(Err(s.terr(io::ErrorKind::TimedOut))); }
         if s.input.is_empty() {
             if s.hold { s.events.push(format!("R{cap}:W")); s.read_waker = Some(cx.waker().clone()); s.waiting_for_input = true; return Poll::Pending; }
             return match s.end {
                 EndMode::Eof => { s.events.push(format!("R{cap}:0")); Poll::Ready(Ok(0)) }
                 EndMode::Pend => { s.events.push(format!("R{cap}:W")); s.read_waker = Some(cx.waker().clone()); s.waiting_for_input = true; Poll::Pending }
-                EndMode::Err => { s.events.push(format!("R{cap}:E")); Poll::Ready(Err(io::ErrorKind::TimedOut.into())) }
+                EndMode::Err => { s.events.push(format!("R{cap}:E")); Poll::Ready(Err(s.terr(io::ErrorKind::TimedOut))) }
             };
         }
         let k = match a { Rd::N(k) => k.max(1).min(cap).min(s.input.len()), _ => cap.min(s.input.len()) };
@@ -75,7 +78,7 @@ fn write_v(s: &mut Shared, cx: &mut Context<'_>, slices: &[&[u8]], tag: &str) ->
     match a {
         Wr::Pending => { s.events.push(format!("{desc}:P")); if s.auto_wake { cx.waker().wake_by_ref(); } Poll::Pending }
         Wr::Zero => { s.events.push(format!("{desc}:Z")); Poll::Ready(Ok(0)) }
-        Wr::Err => { s.events.push(format!("{desc}:E")); Poll::Ready(Err(io::ErrorKind::BrokenPipe.into())) }
+        Wr::Err => { s.events.push(format!("{desc}:E")); Poll::Ready(Err(s.terr(io::ErrorKind::BrokenPipe))) }
         Wr::All | Wr::N(_) => {
             let k = match a { Wr::N(k) => k.max(1).min(total), _ => total };
             let mut left = k;
@@ -101,7 +104,7 @@ impl AsyncWrite for MockW {
         match s.fl.pop_front().unwrap_or(Fl::Ok) {
             Fl::Ok => { s.events.push("F:O".into()); Poll::Ready(Ok(())) }
             Fl::Pending => { s.events.push("F:P".into()); if s.auto_wake { cx.waker().wake_by_ref(); } Poll::Pending }
-            Fl::Err => { s.events.push("F:E".into()); Poll::Ready(Err(io::ErrorKind::PermissionDenied.into())) }
+            Fl::Err => { s.events.push("F:E".into()); Poll::Ready(Err(s.terr(io::ErrorKind::PermissionDenied))) }
         }
     }
     fn poll_close(self: Pin<&mut Self>, _: &mut Context<'_>) -> Poll<io::Result<()>> { Poll::Ready(Ok(())) }
@@ -110,7 +113,7 @@ impl AsyncWrite for MockW {
 pub fn io_kind(e: &io::Error) -> String {
     use io::ErrorKind::*;
     match e.kind() {
-        ConnectionAborted => "aborted".into(), InvalidData => "invalid".into(), UnexpectedEof => "eof".into(), WriteZero => "writezero".into(),
+        ConnectionAborted => if matches!(e.get_ref().and_then(|x| x.downcast_ref::<fastcgi_server::parser::Error>()), Some(fastcgi_server::parser::Error::AbortRequest)) { "abort-request".into() } else { "aborted".into() }, InvalidData => "invalid".into(), UnexpectedEof => "eof".into(), WriteZero => "writezero".into(),
         ConnectionReset => "reset".into(), TimedOut => "tread".into(), BrokenPipe => "twrite".into(), PermissionDenied => "tflush".into(),
         Other => if e.to_string().contains("StreamWriter(s) not dropped") { "writers".into() } else { "other".into() },
         k => format!("unmapped:{k:?}"),
